@@ -1,4 +1,5 @@
 #!/bin/sh
+export VERIF_EVIDENCE_DIR=/verif/out/evidence-scratch
 # usage: drv/mut.sh <file-rel> <sed-expr> <Cxx> [tier]   -- run a check against a scratch copy of /repo with one edit
 set -e
 D=$(mktemp -d /tmp/mut-XXXXXX)
